@@ -485,6 +485,17 @@ func (b *box) doBlock(rc *proto.Recipe) proto.Resp {
 		block, parts = state.MakeBlock(h, txs, commit, evs, proposer)
 		blockID = types.BlockID{Hash: block.Hash(), PartsHeader: parts.Header()}
 	}
+	if err := b.blockExec.ValidateBlock(state, block); err != nil && h > 1 && len(rc.Absent) > 0 && strings.Contains(err.Error(), "insufficient voting power") {
+		// starving these signers would leave the commit below 2/3: a block that
+		// cannot exist; every validator signs instead
+		dt := rc.DtMs
+		if dt <= 0 {
+			dt = 1000
+		}
+		commit, _ = b.makeCommit(state.LastBlockHeight, state.LastBlockID, state.LastValidators, state.LastBlockTime.Add(time.Duration(dt)*time.Millisecond), nil)
+		block, parts = state.MakeBlock(h, txs, commit, evs, proposer)
+		blockID = types.BlockID{Hash: block.Hash(), PartsHeader: parts.Header()}
+	}
 	if err := b.blockExec.ValidateBlock(state, block); err != nil {
 		r := b.baseResp("block")
 		r.Err = "recipe produced an invalid block: " + err.Error()
